@@ -18,6 +18,17 @@ CHECKS = {
         note="bounds: history length 3 (quick) / 4 (thorough) over the alphabets printed in the evidence; match_depth=False "
              "and `visible` not explored. " + TRUST,
         design="2/C18"),
+    "C08": dict(
+        category="model_checking", engine="E2",
+        technique="explicit-state BFS over histories of public tree operations on real Expression trees, invariants checked in every state",
+        text="All histories (length 3 quick / 4 thorough on the smallest trees) of hash/==/set/append/replace/pop/transform/copy/"
+             "builder/simplify/optimizer-rule operations at every node path and list index of 8 small parsed trees are executed "
+             "on real trees; in every reached state parent/arg_key/index links, single storage, cached-hash == fresh hash and "
+             "equality <=> structural equality are checked. A second stream checks the same invariants on every tree returned by "
+             "parse_one (identity.sql x dialects) and by each optimizer rule (optimizer fixtures).",
+        note="bounds as printed in evidence; inserted values are fresh or re-attached nodes; optimizer rules/simplify only applied "
+             "to trees whose SQL re-parses to the same structure; states after an operation raised are not judged. " + TRUST,
+        design="2/C08"),
 }
 
 NOT_YET = "check not built yet in this session (design in DESIGN.md section 2); will be claimed once its check exists"
